@@ -407,7 +407,12 @@ class CallMixin:
             raise EngineError("extend of %s with %s (L%d)" % (recv.s, x.s, node.lineno))
         nv = self.fresh(recv.s, "ext", None)
         self.note_concat(st, nv, [("seq", recv), ("seq", xx)])
-        self.setrecv(node, st, exc, nv)
+        if isinstance(node, ast.AugAssign):
+            # list += iterable (in-place extend): write through the lvalue of the target
+            cur_ = lv.get()
+            lv.set(cur_.s.some(nv) if isinstance(cur_.s, Opt) and not isinstance(nv.s, Opt) else nv)
+        else:
+            self.setrecv(node, st, exc, nv)
         return [(st, S.NONEV())]
 
     def seq_insert(self, recv, lv, args, kw, st, node, exc):
